@@ -1,0 +1,11 @@
+//go:build verif
+
+package mono
+
+import "time"
+
+// VerifAdvance makes the monotonic clock read d later from now on
+// (verification harness only; call it before any other goroutine uses mono).
+func VerifAdvance(d time.Duration) {
+	origin = origin.Add(-d)
+}
